@@ -90,6 +90,7 @@ type fx struct {
 	params      map[string]TV
 	freeVars    []Val
 	srcLines    map[string][]string
+	epochAlloc  map[int]Term
 	nameMap     map[string][]ssa.Value
 	topEnv      *Env
 	litStrs     map[string]string
@@ -145,12 +146,34 @@ func (f *fx) get(st *State, key string) Term {
 			t = f.e.sorts.zero(srt)
 		} else if strings.HasPrefix(key, "E:defer") {
 			t = tFalse
+		} else if strings.HasPrefix(key, "E:ncalls:") {
+			t = intLit(0)
 		} else {
 			t = f.sc.fresh(fmt.Sprintf("%s@%d", key, ep), srt)
+			if a, ok := f.top.epochAlloc[ep]; ok {
+				f.refBound(key, t, a)
+			}
 		}
 		f.top.epochConsts[ck] = t
 	}
 	st.m[key] = t
+	return t
+}
+
+// refBound states that every reference stored in a freshly introduced heap array is already allocated.
+func (f *fx) refBound(key string, arr Term, alloc Term) {
+	if !f.e.keyIsRef[key] {
+		return
+	}
+	// only for objects that are already allocated: the value of a field at a not-yet-allocated reference
+	// stands for what a callee that allocates the object will have stored there when it returns
+	f.sc.assert(T("Bool", "(forall ((r Int)) (! (=> (and (< 0 r) (<= r %s)) (and (<= 0 (select %s r)) (<= (select %s r) %s))) :pattern ((select %s r))))", alloc.S, arr.S, arr.S, alloc.S, arr.S))
+}
+
+// freshHeap introduces a fresh value for a whole state key.
+func (f *fx) freshHeap(key, tag string, alloc Term) Term {
+	t := f.sc.fresh(key+tag, keySort(f.e, key))
+	f.refBound(key, t, alloc)
 	return t
 }
 
@@ -179,6 +202,9 @@ func (f *fx) havocAll(st *State) *State {
 	stateEpoch[n] = f.top.nextEpoch
 	return n
 }
+
+// epochOf returns the epoch of a state (used to attach the allocation bound of a havoc).
+func epochOf(st *State) int { return stateEpoch[st] }
 
 // mergeStates builds the state at a join point.
 func (f *fx) mergeStates(edges []*edge) (*State, Term) {
@@ -255,6 +281,10 @@ func (f *fx) fieldKey(structT types.Type, i int) string {
 	st := structT.Underlying().(*types.Struct)
 	key := "H:" + f.structName(structT) + "." + st.Field(i).Name()
 	f.regKey(key, arraySort("Int", f.e.sorts.sortOf(st.Field(i).Type())))
+	switch st.Field(i).Type().Underlying().(type) {
+	case *types.Pointer, *types.Map, *types.Chan:
+		f.e.keyIsRef[key] = true
+	}
 	return key
 }
 
@@ -275,7 +305,7 @@ func (f *fx) backingKey(elem types.Type) string {
 func (f *fx) mapKeys(m *types.Map) (valKey, domKey string) {
 	ks, vs := f.e.sorts.sortOf(m.Key()), f.e.sorts.sortOf(m.Elem())
 	valKey = "MV:" + ks + ":" + vs
-	domKey = "MD:" + ks
+	domKey = "MD:" + ks + ":" + vs
 	f.regKey(valKey, arraySort("Int", arraySort(ks, vs)))
 	f.regKey(domKey, arraySort("Int", arraySort(ks, "Bool")))
 	return
@@ -347,11 +377,21 @@ func (f *fx) reify(v Val) Term {
 			f.sc.assert(T("Bool", "(> %s 0)", t.S))
 			return t
 		}
+		if l.Root == rootGlobal && len(l.Path) == 0 {
+			return f.globalAddr(l.Key)
+		}
 		unsupp("address of local %s escapes", l.Key)
 	case vTuple:
 		unsupp("tuple used as a term")
 	}
 	panic("unreachable")
+}
+
+// globalAddr is the (opaque, non-nil) address of a package-level variable.
+func (f *fx) globalAddr(key string) Term {
+	name := "gaddr_" + mangle(key)
+	f.sc.declareOnce(name, fmt.Sprintf("(declare-const %s Int)\n(assert (< %s (- 1000000)))", name, name))
+	return Term{name, "Int"}
 }
 
 func (f *fx) loadRoot(st *State, l *Loc) (Term, []PathStep) {
@@ -412,7 +452,9 @@ func (f *fx) descend(v Term, t types.Type, path []PathStep) Term {
 		case *types.Struct:
 			info := f.e.sorts.structInfo[f.e.sorts.sortOf(t)]
 			if info == nil {
-				unsupp("field of opaque struct %s", t)
+				v = f.opaqueField(v, t, s.Field)
+				t = u.Field(s.Field).Type()
+				continue
 			}
 			v = app(info.FSorts[s.Field], info.Fields[s.Field], v)
 			t = u.Field(s.Field).Type()
@@ -424,6 +466,15 @@ func (f *fx) descend(v Term, t types.Type, path []PathStep) Term {
 		}
 	}
 	return v
+}
+
+// opaqueField reads a field of a struct type from outside the repository (uninterpreted accessor).
+func (f *fx) opaqueField(v Term, t types.Type, i int) Term {
+	st := t.Underlying().(*types.Struct)
+	fs := f.e.sorts.sortOf(st.Field(i).Type())
+	name := "opqf_" + mangle(shortTypeName(t)) + "_" + mangle(st.Field(i).Name())
+	f.sc.declareOnce(name, fmt.Sprintf("(declare-fun %s (%s) %s)", name, v.Sort, fs))
+	return app(fs, name, v)
 }
 
 func (f *fx) update(v Term, t types.Type, path []PathStep, nv Term) Term {
@@ -578,6 +629,11 @@ func (f *fx) oblige(kind, name string, goal Term, props []string, where, detail 
 
 func (f *fx) crash(kind string, ok Term, pos token.Pos) {
 	if ok.S == "true" {
+		return
+	}
+	if f.noCrash() {
+		f.note("crash-freedom of " + fnKey(f.top.fn) + " is assumed, not checked (nocrash)")
+		f.sc.assert(implies(f.curReach, ok))
 		return
 	}
 	where, txt := f.srcLine(pos)
